@@ -17,7 +17,7 @@ SPEC = {
              "distinct molecules with >=2 atoms, >=1 bond and at least one non-identity attribute (charge, coordinate, bond type != 1)"),
     "assumptions": ["the scratch flag 'explored' may appear on the serializer's argument with value False (the property allows exactly that)"],
     "monitors_required": ["c12_canon", "c12_canon_repeat", "c12_serialize", "c12_history_compare"],
-    "required_obs": {"quick": ["cov_charged", "cov_bond_types", "cov_multi_component", "cov_corpus", "cov_foreign_attribute"]},
+    "required_obs": {"quick": ["cov_other_drawing_same_identity", "cov_charged", "cov_bond_types", "cov_multi_component", "cov_corpus", "cov_foreign_attribute"]},
     "watchdog_s": {"quick": 900, "thorough": 3600},
 }
 PLAN = {
@@ -27,6 +27,10 @@ PLAN = {
 
 
 def run_case(ctx, case):
+    return common.case_guard(ctx, case, _run_case)
+
+
+def _run_case(ctx, case):
     import tucan.canonicalization as c
     import tucan.serialization as s
     rng = random.Random(case["vseed"])
@@ -42,6 +46,30 @@ def run_case(ctx, case):
     ok, s0 = molprops.guarded(ctx, case, s.serialize_molecule, r)
     if not ok:
         return
+    # "another drawing" earlier/later in the same process: same atoms in the same order with the same identity data and bonds, but other
+    # coordinates, charges, bond types and foreign attributes - its canonical graph must carry ITS attributes (contract on that call)
+    import networkx as nx
+    g_other = nx.Graph()
+    g_other.graph.update(g0.graph)
+    for v, d in g0.nodes(data=True):
+        d2 = dict(d)
+        d2["x_coord"], d2["y_coord"], d2["z_coord"] = d.get("x_coord", 0.0) + 5.0, -d.get("y_coord", 0.0), 1.0
+        d2["_rv_foreign"] = ("other-drawing", v)
+        if rng.random() < 0.3:
+            d2["chg"] = rng.choice([-1, 1, 2])
+        elif "chg" in d2 and rng.random() < 0.5:
+            del d2["chg"]
+        g_other.add_node(v, **d2)
+    for u, v, d in g0.edges(data=True):
+        g_other.add_edge(u, v, **{**d, "bond_type": rng.choice([1, 2, 3, 4])})
+    ctx.evaluations += 1
+    ok, r_other = molprops.guarded(ctx, {**case, "variant": "other-drawing"}, c.canonicalize_molecule, g_other)
+    if not ok:
+        return
+    ok, s_other = molprops.guarded(ctx, {**case, "variant": "other-drawing"}, s.serialize_molecule, r_other)
+    if not ok:
+        return
+    ctx.count("cov_other_drawing_same_identity")
     # random history on the same objects; every call is also checked by the contracts
     fp_r, results = fingerprint(r, True), []
     for step in range(rng.randint(3, 6)):
